@@ -107,9 +107,9 @@ def check_objects(case, stats):
     stats.exhaustive_parts.append("all 13 instruction classes x 4096 addresses (encode -> decode)")
 
 
-def _load(text):
+def _load(text, mem_size=None):
     from architecture_simulator.simulation.toy_simulation import ToySimulation
-    sim = ToySimulation()
+    sim = ToySimulation(unified_memory_size=mem_size) if mem_size else ToySimulation()
     sim.load_program(text)
     return sim
 
@@ -117,9 +117,12 @@ def _load(text):
 def check_asm(case, stats):
     ast, style = case["ast"], case["style"]
     text = rtoy.render(ast, style)
-    exp = rtoy.assemble(ast)
+    # the simulation may be built with a smaller unified memory (constructor parameter): its top is where the data goes
+    need = sum(1 for i in ast["text"] if "label" not in i) + sum(len(v["values"]) for v in ast["data"])
+    size = case.get("mem_size") if case.get("mem_size") and need <= case["mem_size"] else None
+    exp = rtoy.assemble(ast, size or 4096)
     try:
-        sim = _load(text)
+        sim = _load(text, size)
     except Exception as ex:
         raise Violation("well-formed-program-rejected", case, f"{type(ex).__name__}: {ex!r}\n{text}")
     got = {int(a): int(v) for a, v in sim.state.memory.memory_file.items()}
@@ -153,6 +156,8 @@ def check_asm(case, stats):
             inline_ref = True
         pc += 1
     tags = {"asm"}
+    if size:
+        tags.add("smaller-memory")
     if ast.get("data_first"):
         tags.add("data-first")
     if fwd:
@@ -242,7 +247,7 @@ def asm_case(draw):
         "trailing_newline": draw(st.booleans()),
         "num": draw(st.lists(st.integers(0, 3), min_size=1, max_size=4)),
     }
-    return {"kind": "asm", "ast": ast, "style": style}
+    return {"kind": "asm", "ast": ast, "style": style, "mem_size": draw(st.sampled_from([None, None, None, 1024, 256, 100, 2048]))}
 
 
 def corpus():
